@@ -11,8 +11,8 @@ the representation of the same numbers).
 * a *recipe* is a plain function ``recipe(c)`` receiving a context ``c``
   (class ``Ctx``) that hands out the arguments in the requested
   *representation*, *data condition* and *geometry* (``c.data()``,
-  ``c.error()``, ``c.mask()``, ``c.hold(name, obj)`` for every other
-  caller-held object) and
+  ``c.error()``, ``c.mask()``, ``c.arg(name, array)`` for every other array
+  argument, ``c.hold(name, obj)`` for every other caller-held object) and
   executes the calls as named *steps* (``c.step(label, thunk)``).  After every
   step (whether it returned or raised) all caller-held objects are compared
   with the snapshot taken before the first step.  For catalog-like classes
@@ -20,6 +20,12 @@ the representation of the same numbers).
   method callable without arguments as one step each.
 * the same recipes serve C15: the context records the (normalised) output of
   every step, and C15 compares them between representations.
+
+* C10 additionally singles out every array argument handed out through the
+  context in turn ("one companion at a time", representation
+  ``'companion:<kind>:<slot>'``, see ``COMPANION_KINDS_*`` / ``Ctx._alone``) and
+  enumerates the forms of every Table-valued argument (``registry_recipes``:
+  ``init_table_forms``, ``_params_table_forms``, ``_catalog_forms``).
 
 The recipes contain no expected values: C10's oracle is "snapshot before ==
 snapshot after", C15's oracle is "output(representation) == output(float64)".
@@ -130,6 +136,18 @@ CONDITIONS = ('clean', 'negatives', 'nonfinite', 'nonfinite_error', 'masked', 'i
 MASKFORMS = ('cond', 'none', 'empty')
 C10_REPS_QUICK = ('ndarray', 'ma_nomask', 'ma_empty', 'ma_masked', 'quantity', 'view', 'nddata')
 C10_REPS_THOROUGH = C10_REPS_QUICK + ('strided', 'fortran', 'float32', 'bigendian', 'ma_error')
+# --- one companion at a time (C10) ---------------------------------------------
+# 'companion:<kind>:<slot>': the image and every other argument are plain C-contiguous ndarrays, the array argument
+# <slot> alone (error, background, threshold / convolved / gain map, kernel, weights, footprint, mask, coordinate
+# arrays ...) is handed over as
+#   'ma'        a MaskedArray that owns a real mask array with True pixels,
+#   'ma_empty'  a MaskedArray that owns a real, all-False mask array,
+#   'strided'   a non-contiguous view (every second element along each axis) of a larger array (the parent is watched).
+# The MaskedArray kinds apply to two-dimensional float arrays (images, kernels, weights); one-dimensional arrays,
+# coordinate lists and boolean masks are handed over as ndarrays only ("layout" kinds).
+COMPANION_KINDS_QUICK = ('ma', 'strided')
+COMPANION_KINDS_THOROUGH = ('ma', 'ma_empty', 'strided')
+COMPANION_LAYOUT_KINDS = ('strided',)
 C15_REPS = ('f4', 'i4', 'i8', 'be', 'F', 'strided', 'ma_empty', 'ma_nomask', 'nddata', 'quantity')
 C15_MIXED = ('mixed_data', 'mixed_companion')
 NDDATA_REPS = ('nddata', 'nddata_q')      # 'nddata_q' (C15): NDData with a unit + Quantity companions
@@ -313,11 +331,24 @@ def snap(obj):
                 'uncertainty_unit': None if obj.uncertainty is None else str(obj.uncertainty.unit),
                 'meta': digest(dict(obj.meta))}
     if isinstance(obj, Table):
-        out = {'colnames': tuple(obj.colnames), 'meta': digest(dict(obj.meta))}
+        # deep: class, column order, per column values / dtype / shape / unit / mask / class / info (format, description,
+        # meta), table meta.  A column that is added, dropped, renamed, reordered, converted or re-typed is named.
+        out = {'class': type(obj).__name__, 'colnames': tuple(obj.colnames), 'meta': digest(dict(obj.meta))}
         for n in obj.colnames:
             col = obj[n]
-            out['col:' + n] = snap(u.Quantity(col)) if isinstance(col, u.Quantity) else snap(np.asarray(col))
-            out['colunit:' + n] = str(getattr(col, 'unit', None))
+            comp = dict(snap(u.Quantity(col)) if isinstance(col, u.Quantity) else snap(np.asarray(col)))
+            comp['unit'] = str(getattr(col, 'unit', None))
+            comp['class'] = type(col).__name__
+            cm = getattr(col, 'mask', None)
+            if cm is not None and not isinstance(col, u.Quantity):
+                comp['mask'] = digest(np.array(np.broadcast_to(cm, np.shape(col))))
+            info = getattr(col, 'info', None)
+            if info is not None:
+                try:
+                    comp['info'] = (repr(info.format), repr(info.description), digest(dict(info.meta or {})))
+                except Exception:     # a mixin column without these attributes
+                    pass
+            out[f'column {n!r}'] = comp
         return out
     if isinstance(obj, (list, tuple)):
         return {f'[{i}]': snap(x) for i, x in enumerate(obj)}
@@ -493,6 +524,15 @@ class Ctx:
         self.extras = extras
         self.masks_out = []                  # (name, 'all-False' | 'some-True', is a view) of every mask handed out
         # companion slots (C15, one companion at a time): every unit-ful companion argument handed out has a slot name
+        # one companion at a time (C10): see COMPANION_KINDS_*
+        self.rep_label = rep
+        self.comp = None                     # (kind, slot)
+        self.comp_applied = 0                # how often the slot was handed out in its representation
+        self.array_slots = collections.OrderedDict()     # slot -> {'kinds': 'all' | 'layout', 'mask': follows the scene's mask argument}
+        if rep.startswith('companion:'):
+            _, kind, slot = rep.split(':', 2)
+            self.comp = (kind, slot)
+            rep = 'ndarray'
         self.solo = tuple(rep.split(':', 1)) if ':' in rep else None      # (mode, slot)
         self.slots = collections.OrderedDict()      # slot name -> number of hand-outs
         self.step_slots = {}                        # step label -> slots the call receives (directly or through an object built from them)
@@ -602,15 +642,22 @@ class Ctx:
                 out |= ref[1]
         return out
 
-    def q(self, value, name=None, unit=None, power=1, scaled=True):
+    def q(self, value, name=None, unit=None, power=1, scaled=True, alone=True):
         """A threshold-like scalar (or array) carrying the data unit when the
         representation is unit-ful.  ``name``: companion slot (default: named
-        after the value)."""
+        after the value).  ``alone=False``: an array that becomes a table column
+        (not an array argument: no companion slot of the C10 axis)."""
         if name is None:
             name = 'q=%g' % value if np.ndim(value) == 0 else 'q=array'
         if scaled:
             value = value * self.scale
-        return self._companion(name, value, unit=unit, power=power)
+        v = self._companion(name, value, unit=unit, power=power)
+        if alone and isinstance(v, np.ndarray) and v.ndim and self.slot_mode(name) == 'plain':
+            alt = self._alone(name, v)
+            if alt is not None:
+                self._carry(alt, {name})
+                return alt
+        return v
 
     def hold(self, name, obj):
         """Register a caller-held object to be watched (snapshot taken now if
@@ -731,7 +778,7 @@ class Ctx:
         x0, y0 = self.origin
         return (BLOCK[1].start - x0, BLOCK[1].stop - x0, BLOCK[0].start - y0, BLOCK[0].stop - y0)
 
-    def array(self, name, a, kind='data'):
+    def array(self, name, a, kind='data', mask_slot=False):
         """Wrap a float64 / bool ndarray ``a`` in the representation.
         kind 'data': primary image-like argument (containers + layout);
         'companion': unit-ful companion (error, background, threshold map);
@@ -739,6 +786,11 @@ class Ctx:
         'aux': any other array (layout only, never re-typed)."""
         a = np.array(a)
         rep = self.rep
+        if kind in ('plain', 'aux') or a.dtype.kind == 'b':
+            # 'aux' arrays (coordinate grids, masks): memory layouts only; 'plain' ones (kernels): by shape and dtype
+            alt = self._alone(name, a, kinds='layout' if (kind == 'aux' or a.dtype.kind == 'b') else None, mask=mask_slot)
+            if alt is not None:
+                return self.hold(name, alt)
         if kind == 'plain':        # unit-less numeric argument (e.g. a kernel): dtype + layout only
             return self.hold(name, self._layout(name, a, 0))
         if kind == 'aux' or a.dtype.kind == 'b':
@@ -748,6 +800,9 @@ class Ctx:
             if self.slot_mode(name) != 'plain':
                 return self.hold(name, q)
             a = q
+            alt = self._alone(name, a)
+            if alt is not None:
+                return self.hold(name, alt)
             if rep == 'ma_error':
                 return self.hold(name, np.ma.MaskedArray(a, mask=np.zeros(a.shape, bool)))
             return self.hold(name, self._layout(name, a, 1))
@@ -764,6 +819,44 @@ class Ctx:
         else:
             obj = self._layout(name, a, 7)
         return self.hold(name, obj)
+
+    # ---- one companion at a time (C10) ----------------------------------------
+    def _alone(self, name, a, kinds=None, mask=False):
+        """Register the array argument ``name`` as a companion slot; when this
+        run singles it out ('companion:<kind>:<name>') return it in that
+        representation (None otherwise: the caller hands it out as usual)."""
+        if kinds is None:
+            kinds = 'all' if (a.ndim == 2 and a.dtype.kind == 'f') else 'layout'
+        self.array_slots.setdefault(name, {'kinds': kinds, 'mask': bool(mask)})
+        if self.comp is None or self.comp[1] != name:
+            return None
+        kind = self.comp[0]
+        if kind not in COMPANION_LAYOUT_KINDS and kinds != 'all':
+            return None
+        self.comp_applied += 1
+        a = np.array(a)
+        if kind == 'strided':
+            parent = a
+            for ax in range(a.ndim):
+                parent = np.repeat(parent, 2, ax)
+            parent = parent.copy()
+            self.hold(name + '.base', parent)
+            return parent[(slice(None, None, 2),) * a.ndim]
+        if kind in ('ma', 'ma_empty'):
+            m = np.zeros(a.shape, bool)
+            if kind == 'ma':             # True pixels that do not coincide with the bad pixels of the scene
+                m.flat[[a.size // 3, (a.size // 2 + 3) % a.size]] = True
+            return np.ma.MaskedArray(a, mask=m)
+        raise ValueError(f'unknown companion representation {kind!r}')
+
+    def arg(self, name, a, kinds=None):
+        """Any other array argument the caller holds (kernel, weights,
+        footprint, coordinate arrays): handed over as it is -- and watched --
+        except in the run that singles it out (see ``_alone``).  ``kinds``:
+        'all' (MaskedArray kinds + layouts) or 'layout'; default by shape and
+        dtype (two-dimensional float arrays: 'all')."""
+        alt = self._alone(name, np.asarray(a), kinds=kinds)
+        return self.hold(name, a if alt is None else alt)
 
     def data(self, region=None, name='data', nddata_ok=False, offset=0.0, nd_wcs=None):
         """The primary image in the requested representation (held).
@@ -802,7 +895,7 @@ class Ctx:
     def mask(self, region=None, name='mask', even_for_nddata=False):
         if (self.rep in NDDATA_REPS and not even_for_nddata) or self.sc['mask'] is None:
             return None
-        return self._log_mask(name, self.array(name, self._cut(self.sc['mask'], region), kind='aux'))
+        return self._log_mask(name, self.array(name, self._cut(self.sc['mask'], region), kind='aux', mask_slot=True))
 
     def _log_mask(self, name, m):
         self.masks_out.append((name, 'some-True' if np.any(m) else 'all-False', m.base is not None))
@@ -1010,11 +1103,12 @@ def member_names(cls, own=False):
 # --------------------------------------------------------------------------
 # recipes
 # --------------------------------------------------------------------------
-Recipe = collections.namedtuple('Recipe', 'name fn covers nddata units numeric slow axes geoms')
+Recipe = collections.namedtuple('Recipe', 'name fn covers nddata units numeric slow axes geoms companions')
 RECIPES = collections.OrderedDict()
 
 
-def recipe(name, covers, nddata=False, units=False, numeric=True, slow=False, axes=('rep', 'cond'), geoms=('base',)):
+def recipe(name, covers, nddata=False, units=False, numeric=True, slow=False, axes=('rep', 'cond'), geoms=('base',),
+           companions=True):
     """Register a recipe.  ``covers``: public callables it exercises;
     ``nddata``: the data argument may be an NDData; ``units``: the API
     documents Quantity inputs (C15 demands they work and that mixing raises);
@@ -1024,11 +1118,13 @@ def recipe(name, covers, nddata=False, units=False, numeric=True, slow=False, ax
     not depend on the data condition, and is run once along that axis);
     ``geoms``: the geometry alphabet of the recipe (C10; first = 'base', the
     only geometry C15 uses): names of ``FRAMES`` or recipe-specific names the
-    recipe function interprets itself (``c.geom``)."""
+    recipe function interprets itself (``c.geom``); ``companions=False``: the
+    recipe has no array argument besides the image (C10 plans no
+    one-companion-at-a-time unit for it)."""
     def deco(fn):
         assert geoms[0] == 'base'
         RECIPES[name] = Recipe(name, fn, tuple('photutils.' + c for c in covers), nddata, units, numeric, slow, tuple(axes),
-                               tuple(geoms))
+                               tuple(geoms), bool(companions))
         return fn
     return deco
 
